@@ -54,7 +54,7 @@ def events_of(stream: lexer.Stream) -> list[str]:
 
 def check(rep: Report, length: int | None = None) -> None:
     length = length or (4 if rep.tier == "quick" else 5)
-    gen = tlc.OUT / "cfg"
+    gen = tlc.OUT / "cfg" / str(__import__("os").getpid())
     gen.mkdir(parents=True, exist_ok=True)
     cfg = gen / f"MC_VT_{length}.cfg"
     cfg.write_text((tlc.SPECS / "MC_VT.cfg").read_text().replace("L = 4", f"L = {length}"))
